@@ -10,3 +10,5 @@ META = {
     "technique": 'Coq proof of shutdown/progress guards of the pool automaton + trace validation + stall oracle',
     "design_ref": "5/C03",
 }
+# future triggers (a[+Pn] => b): a run that the runahead limit would deadlock without the future-offset adjustment
+STREAMS.append(SchedStream('C03', name="sched-future", feat={'future': True, 'abs': True, 'max_fcp': 6}, n_quick=32, n_thorough=600))
